@@ -392,7 +392,12 @@ def pred_c16(case, impl, model, ctx):
     implementation's own dump: the index returned for id x is where x sits, or the count"""
     spec = {}
     pk = {}
+    hdrs = {}
     last_dump = None
+
+    def same_header(view, pid):
+        # every header member of the stored packet is the one of the latest packet (a refresh that skips a member keeps the old value)
+        return view.split(":")[1:10] == hdrs.get(pid)
     for o, l in zip(case.ops, impl):
         if l.startswith("CRASH"):
             return False
@@ -402,6 +407,7 @@ def pred_c16(case, impl, model, ctx):
             dev = int(w[4])
             data = b"" if w[12] == "-" else bytes.fromhex(w[12])
             pk[w[1]] = (ty, dev, data)
+            hdrs[w[1]] = w[3:12]      # version, device, stream, counter, timestamp, interface id, vendor id, flags, segment type
         elif w[0] == "st" and w[2] == "update":
             ty, dev, data = pk[w[3]]
             view = None     # the packet view is taken from the dump; the spec tracks which packet id is expected
@@ -433,9 +439,13 @@ def pred_c16(case, impl, model, ctx):
                 ts = int(pkv.split(":")[5])
                 if "p%d" % (ts - 100) != spec[dev][0] and "p%d" % (ts - 1000) != spec[dev][0]:
                     return False
+                if not same_header(pkv, spec[dev][0]):
+                    return False
                 for i, v in ifs:
                     ts = int(v.split(":")[5])
                     if "p%d" % (ts - 100) != spec[dev][1][i] and "p%d" % (ts - 1000) != spec[dev][1][i]:
+                        return False
+                    if not same_header(v, spec[dev][1][i]):
                         return False
         elif w[0] == "st" and w[2] == "idx" and last_dump is not None:
             idx = int(l.split(" ")[0].split("=")[1])
